@@ -60,13 +60,16 @@ impl DataItem for TimeItem {
 
         let calculated_right = Duration::seconds(right.num_seconds_from_midnight() as i64);
 
-        if is_negative {
-            return Some(Rc::new(TimeItem(self.0 - calculated_right, self.1.clone())));
-        }
+        /* A negative duration moves the clock in the opposite direction */
+        let operation_type = match (operation_type, is_negative) {
+            (OperationType::Add, true) => OperationType::Sub,
+            (OperationType::Sub, true) => OperationType::Add,
+            (operation_type, _) => operation_type
+        };
         
         match operation_type {
-            OperationType::Add => Some(Rc::new(TimeItem(self.0 + calculated_right, self.1.clone()))),
-            OperationType::Sub => Some(Rc::new(TimeItem(self.0 - calculated_right, self.1.clone()))),
+            OperationType::Add => Some(Rc::new(TimeItem(self.0.checked_add_signed(calculated_right)?, self.1.clone()))),
+            OperationType::Sub => Some(Rc::new(TimeItem(self.0.checked_sub_signed(calculated_right)?, self.1.clone()))),
             _ => None
         }
     }
